@@ -462,11 +462,14 @@ example : ((lightStore genuineHeader
 
 /-! ### the first header: how the store gets its head (the REAL initial condition)
 
-A node without a trusted hash asks its peers for the header at the initial height (`SyncService.setFirstAndStart`);
-the exchange session applies `Validate()`, and `initStoreAndStartSyncer` — since /repo 5bb4988 — requires the
-genesis proposer address before `store.Init`.  Before that commit the self-consistent header of ANY proposer was
-taken and `Verify` then followed that foreign chain (`p2pBootAdmitOld`, witness below).  With a configured trusted
-hash the header is fetched by hash and goes through the same function. -/
+A node without a trusted hash asks its peers for the header at the initial height (`SyncService.setFirstAndStart` →
+`Exchange.GetByHeight`).  go-header only DECODES the answer to that single request (it validates what arrives through
+gossip and exchange sessions, `p2p/subscriber.go:214`, `p2p/session.go:340`, nothing else).  `initStoreAndStartSyncer`
+therefore has to do everything itself before `store.Init`: since /repo 5bb4988 it requires the genesis proposer
+ADDRESS (before: any decodable header became the head, `p2pBootAdmitOld`), and since /repo 3ea3561 it calls
+`Validate()` first (between the two commits an UNSIGNED header that merely names the proposer seeded the store:
+`p2pBootAdmitMid`, witness below).  With a configured trusted hash the header is fetched by hash and goes through
+the same function. -/
 
 theorem p2pboot_accepted_iff (o : Oracle) (p bs : Bytes) :
     p2pBootAdmit o p bs = .accepted ↔ ∃ sh, headerStage o bs = .ok sh ∧ p2pAdmit o p sh = true := by
@@ -533,8 +536,21 @@ rejected at the genesis check, the genuine first header is stored -/
 theorem old_p2pboot_accepted_foreign_chain :
     p2pBootAdmitOld forgeO foreignChainHeader.encode = .accepted ∧
     p2pBootAdmit forgeO proposer foreignChainHeader.encode = .rejGenesis ∧
-    p2pBootAdmit forgeO proposer genuineHeader.encode = .accepted ∧
-    p2pBootAdmit nothingO proposer unsignedNext.encode = .rejValidate := by decide +kernel
+    p2pBootAdmit forgeO proposer genuineHeader.encode = .accepted := by decide +kernel
+/-- kernel-evaluated: **between /repo 5bb4988 and 3ea3561 an unsigned header that merely NAMES the proposer seeded
+the store** (go-header does not validate the answer to `GetByHeight`); so did a garbage-signed one and the forgery
+with a foreign key; now all are rejected at `Validate()` -/
+theorem old_p2pboot_accepted_unsigned_header_naming_the_proposer :
+    p2pBootAdmitMid nothingO proposer unsignedNext.encode = .accepted ∧
+    p2pBootAdmitMid { forgeO with hdrSigOk := false } proposer genuineHeader.encode = .accepted ∧
+    p2pBootAdmitMid forgeO proposer forgedHeader.encode = .accepted ∧
+    p2pBootAdmit nothingO proposer unsignedNext.encode = .rejValidate ∧
+    p2pBootAdmit { forgeO with hdrSigOk := false } proposer genuineHeader.encode = .rejValidate ∧
+    p2pBootAdmit forgeO proposer forgedHeader.encode = .rejValidate := by decide +kernel
+/-- the data store's first item: the old init path panicked on an item without metadata, now it is rejected -/
+theorem old_p2pboot_data_panicked :
+    p2pBootDataAdmitOld [0x12, 0x01, 0x78] = .panics ∧ p2pBootDataAdmit [0x12, 0x01, 0x78] = .rejValidate ∧
+    p2pBootDataAdmit [0x0a, 0x00] = .accepted := by decide +kernel
 example : (lightNode proposer (foreignChainHeader.encode, forgeO) [(genuineNext.encode, forgeO)]) = [] := by
   decide +kernel
 example : ((lightNode proposer (genuineHeader.encode, forgeO)
